@@ -70,7 +70,10 @@ def fuzz(g, toks, keep=1):
 
 def geoadd(g, conn, key=None):
     r = g.r
-    key = key or gkey(g, 0.12)
+    # GEOADD goes to the geo keys and, now and then, to keys of another type / odd keys - not to the operands of
+    # ZUNIONSTORE / ZINTERSTORE (z1..z3, zd): weighted sums of 52-bit scores leave the integers the float-text model
+    # prints, and the rest of the stream would be ignored. The mixing with sorted-set commands happens on g1 / g2.
+    key = key or (hx(r.choice([k for k in ALLKEYS if k not in KEYS["zset"]] + [b"nokey"])) if r.random() < 0.1 else hx(r.choice(GKEYS)))
     toks = [key]
     x = r.random()
     if x < 0.06:
